@@ -531,6 +531,19 @@ Definition parse_world (env : list (bytes * bytes)) (maxi : N) (globs : list ((N
 Definition parse (env : list (bytes * bytes)) (inp : list N) : pres (list block) :=
   parse_world env 10000 [] [] inp.
 
+(* a token that is no import directive: its text is not `import`, as written or after expansion *)
+Definition noimpb (env : list (bytes * bytes)) (t : token) : bool :=
+  negb (beq (t_text t) IMPORT) && negb (beq (renv env (t_text t)) IMPORT).
+(* a token soup WITHOUT import directives, run with the PROVED fuel (C10_parse_total_no_imports:
+   tokens + 4) and the implementation's own import bound; PFuel if the soup holds an import directive
+   (the harness never generates one in this stream) *)
+Definition parse_soup (env : list (bytes * bytes)) (globs : list ((N * bytes) * list N))
+           (files : list (N * option (list N))) (inp : list N) : pres (list block) :=
+  let toks := lex inp in
+  if forallb (noimpb env) toks
+  then parse_tokens env 10000 globs (lex_files files) (length toks + 4) toks
+  else PFuel.
+
 (* ---------- Dispenser operations used by directive setup code ---------- *)
 (* over a bare token list and cursor (NewDispenserTokens of one directive group) *)
 Definition d_tok (ts : list token) (c : Z) : option token :=
@@ -658,10 +671,7 @@ Inductive case :=
          (files : list (N * option (list N))) (globs : list ((N * bytes) * list N))
          (o : obs) (expected : option (list eblock)).
 
-Definition judge_parse (env : list (bytes * bytes)) (cap : N) (main : list N)
-           (files : list (N * option (list N))) (globs : list ((N * bytes) * list N))
-           (o : obs) (expected : option (list eblock)) : bool * bool :=
-  let m := parse_world env cap globs files main in
+Definition judge_with (m : pres (list block)) (o : obs) (expected : option (list eblock)) : bool * bool :=
   let agree :=
     match m, o with
     | POk bl, OBlocks ob => list_beq oblock_eqb (map canon bl) ob
@@ -681,6 +691,17 @@ Definition judge_parse (env : list (bytes * bytes)) (cap : N) (main : list N)
                     end
     end in
   (agree, spec).
+Definition judge_parse (env : list (bytes * bytes)) (cap : N) (main : list N)
+           (files : list (N * option (list N))) (globs : list ((N * bytes) * list N))
+           (o : obs) (expected : option (list eblock)) : bool * bool :=
+  judge_with (parse_world env cap globs files main) o expected.
+(* kind 1: the totality theorem applies — the model's answer must be blocks or an error class *)
+Definition is_res {A} (m : pres A) : bool := match m with POk _ | PErr _ => true | _ => false end.
+Definition judge_soup (env : list (bytes * bytes)) (main : list N)
+           (files : list (N * option (list N))) (globs : list ((N * bytes) * list N))
+           (o : obs) (expected : option (list eblock)) : bool * bool :=
+  let m := parse_soup env globs files main in
+  let '(agree, spec) := judge_with m o expected in (agree && is_res m, spec).
 
 Definition judge (c : case) : N :=
   match c with
@@ -691,7 +712,8 @@ Definition judge (c : case) : N :=
       let '(agree, spec) := judge_parse env cap main files globs o expected in
       verdict agree spec
   | CParseAt base names kind env cap main files globs o expected =>
-      let '(agree, spec) := judge_parse env cap main files globs o expected in
+      let '(agree, spec) := if kind =? 1 then judge_soup env main files globs o expected
+                            else judge_parse env cap main files globs o expected in
       (* what filepath.Glob returned for every literal pattern is what the resolution rule says *)
       verdict (agree && globs_resolve_ok (abs_of base names) (known_of base names) globs) spec
   end.
